@@ -73,6 +73,20 @@ func packagesForProperty(repo, mirror, id string) []string {
 			if re.Match(data) {
 				rel, _ := filepath.Rel(strip, filepath.Dir(path))
 				seen[rel] = true
+				// site rules name the packages they range over
+				for _, m := range reRuleIn.FindAllStringSubmatch(string(data), -1) {
+					if !strings.Contains(m[1], id) {
+						continue
+					}
+					for _, pn := range strings.Split(m[2], ",") {
+						pn = strings.TrimSpace(pn)
+						for _, cand := range []string{"internal/" + pn, "pkg/" + pn, "cmd/" + pn} {
+							if st, err := os.Stat(filepath.Join(repo, cand)); err == nil && st.IsDir() {
+								seen[cand] = true
+							}
+						}
+					}
+				}
 			}
 			return nil
 		})
@@ -88,6 +102,8 @@ func packagesForProperty(repo, mirror, id string) []string {
 	sort.Strings(out)
 	return out
 }
+
+var reRuleIn = regexp.MustCompile(`(?m)^//@\s+(?:gate|checked)\s+([^:]*):.*\bin=([A-Za-z0-9_, ]+)`)
 
 func hasProp(props []string, id string) bool {
 	for _, p := range props {
